@@ -184,7 +184,25 @@ impl<'a> Frame<'a> {
         R: BytesReader<'a>,
     {
         let kind = match bytes_reader.get_varint() {
-            Some(kind_id) => FrameKind::parse(kind_id).ok_or(ParseError::UnknownFrame)?,
+            Some(kind_id) => match FrameKind::parse(kind_id) {
+                Some(kind) => kind,
+                None => {
+                    // An unknown frame must be skipped in its entirety (length and payload),
+                    // otherwise its content would be interpreted as subsequent frames.
+                    let Some(payload_len) = bytes_reader.get_varint() else {
+                        return Ok(None);
+                    };
+
+                    if bytes_reader
+                        .get_bytes(payload_len.into_inner() as usize)
+                        .is_none()
+                    {
+                        return Ok(None);
+                    }
+
+                    return Err(ParseError::UnknownFrame);
+                }
+            },
             None => return Ok(None),
         };
 
@@ -224,7 +242,39 @@ impl<'a> Frame<'a> {
         use crate::bytes::BytesReaderAsync;
 
         let kind_id = reader.get_varint().await?;
-        let kind = FrameKind::parse(kind_id).ok_or(IoReadError::Parse(ParseError::UnknownFrame))?;
+        let kind = match FrameKind::parse(kind_id) {
+            Some(kind) => kind,
+            None => {
+                // An unknown frame must be skipped in its entirety (length and payload),
+                // otherwise its content would be interpreted as subsequent frames.
+                let mut remaining = reader
+                    .get_varint()
+                    .await
+                    .map_err(|e| match e {
+                        bytes::IoReadError::ImmediateFin => bytes::IoReadError::UnexpectedFin,
+                        _ => e,
+                    })?
+                    .into_inner();
+
+                let mut scratch = [0; 256];
+
+                while remaining > 0 {
+                    let len = std::cmp::min(remaining, scratch.len() as u64) as usize;
+
+                    reader
+                        .get_buffer(&mut scratch[..len])
+                        .await
+                        .map_err(|e| match e {
+                            bytes::IoReadError::ImmediateFin => bytes::IoReadError::UnexpectedFin,
+                            _ => e,
+                        })?;
+
+                    remaining -= len as u64;
+                }
+
+                return Err(IoReadError::Parse(ParseError::UnknownFrame));
+            }
+        };
 
         if matches!(kind, FrameKind::WebTransport) {
             let session_id =
